@@ -550,7 +550,8 @@ def pylayer_check(ctx, libdir):
     for sq, rs in zip(seqs, res):
         nprev = 0; hit = None
         for o, row in zip(sq["pyops"], rs["rows"]):
-            if o[0] == "remove" and o[1] is not None and not (0 <= o[1] < nprev) and (row[0] != 0 or row[2] != nprev):
+            # (only the index argument: with hash= also given, Simulation.remove goes on to the removal by hash)
+            if o[0] == "remove" and o[1] is not None and o[2] is None and not (0 <= o[1] < nprev) and (row[0] != 0 or row[2] != nprev):
                 hit = {"N_before": nprev, "op": o, "row_code_payload_N_Nactive": row}; break
             nprev = row[2]
         if hit:
